@@ -651,6 +651,33 @@ func c20ProcAndLimits(c *vcore.Ctx, mode string, root cgroup.Cgroup, prefix stri
 			}
 		}
 	}
+	// destroying a handle touches its own group only: idle groups other handles made below it stay
+	if src.Bool(1, 2, "destroy_parent_with_foreign_children") {
+		pool, err := root.New("pool")
+		if err != nil {
+			return vcore.Violate(prop, "new_failed", mode+"/pool", "New(pool) failed: %v", err)
+		}
+		other, err := root.New("pool") // a second party sharing the prefix: a handle of the existing group
+		if err != nil {
+			return vcore.Violate(prop, "new_failed", mode+"/pool", "New on the existing pool failed: %v", err)
+		}
+		job, err := other.New("job")
+		if err != nil {
+			return vcore.Violate(prop, "new_failed", mode+"/pool", "New(job) below the pool failed: %v", err)
+		}
+		derr := pool.Destroy()
+		for _, p := range s4Paths(mode, ctrls, filepath.Join(prefix, "pool", "job")) {
+			if _, e := os.Stat(p); e != nil {
+				job.Destroy()
+				other.Destroy()
+				return vcore.Violate(prop, "destroy_removed_foreign_group", mode+"/child_of_destroyed_parent", "Destroy of the handle that created %s/pool (result %v) also removed the idle group pool/job, made through another handle: %s is gone", prefix, derr, p)
+			}
+		}
+		c.Probe("parent_destroyed_before_foreign_child")
+		job.Destroy()
+		other.Destroy()
+		pool.Destroy()
+	}
 	// move the probe back out so that the group can be removed
 	for _, cmd := range cmds {
 		cmd.Process.Kill()
